@@ -87,8 +87,8 @@ func init() {
 			assumptions: []string{"none beyond the go-lifecycle contract: that received events carry one of the three types and a non-nil object is a channel invariant by element type, asserted at every send in /repo (structural obligation chaninv-coverage) and assumed at the receive"},
 		},
 		"C17": {
-			explanation: "Soundness: every Equals and FiltersEqual is proved against 'result => the two filters accept the same objects', with accept defined per filter type (C18/C19) and representations immutable (generated structural obligations). Completeness: every Equals, compareFilterList and FiltersEqual is also proved against 'built the same way => result' (relation bs, defined per filter type), and one lemma per constructor (Null, All, Not, And, Or, NSName, Selector, Labels, LabelSelector, NodeFilter, InvolvedFilter, SelectorMatchFilter) shows over the constructor's own postconditions that two calls with the same arguments give bs-related filters for which FiltersEqual returns true. Workload filters: a lemma shows that source lists with the same elements in any order give filters that accept the same objects; for deployment, replicaset, daemonset, statefulset, job and replication controller the filters are moreover proved to compare Equal: the comparator closure is under contract, sort.Slice leaves the slice sorted by it, the sorted arrangement of distinct-keyed sources is unique (lemma by induction), a second contract view of PodsFilter ties its children to that arrangement, and a per-package lemma over two calls concludes FiltersEqual.",
-			notDecided:  []string{"order-independent equality of service.PodsFilter (services without selector are skipped: children are a subsequence of the sorted sources) and of ingress.ServicesFilter: comparator contract, semantic lemma and bounded search only", "order-independence assumes pairwise distinct namespace/name among the sources (with duplicates sort.Slice is not stable and the property itself is unclear)"},
+			explanation: "Soundness: every Equals and FiltersEqual is proved against 'result => the two filters accept the same objects', with accept defined per filter type (C18/C19) and representations immutable (generated structural obligations). Completeness: every Equals, compareFilterList and FiltersEqual is also proved against 'built the same way => result' (relation bs, defined per filter type), and one lemma per constructor (Null, All, Not, And, Or, NSName, Selector, Labels, LabelSelector, NodeFilter, InvolvedFilter, SelectorMatchFilter) shows over the constructor's own postconditions that two calls with the same arguments give bs-related filters for which FiltersEqual returns true. Workload filters: a lemma shows that source lists with the same elements in any order give filters that accept the same objects; for all seven PodsFilter functions (deployment, replicaset, daemonset, statefulset, job, replication controller, service) and for ingress.ServicesFilter the filters are moreover proved to compare Equal: the comparator closure is under contract, sort.Slice leaves the slice sorted by it, the sorted arrangement of distinct-keyed sources is unique (lemma by induction), a second contract view of PodsFilter ties its children to that arrangement, and a per-package lemma over two calls concludes FiltersEqual.",
+			notDecided:  []string{"order-independence of the seven PodsFilter functions is proved for sources with pairwise distinct namespace/name (with duplicates sort.Slice is not stable and the sentence itself is unclear); ingress.ServicesFilter needs no such premise"},
 			assumptions: []string{"reflect.DeepEqual / labels.Equals imply equal abstract value for the compared types", "reflect.DeepEqual is reflexive on selectors and holds for nsNameFilter / nodeFilter values with the same map contents and slice elements", "labels.SelectorFromSet / LabelSelectorAsSelector are functions of their argument", "sort.Slice leaves the slice sorted by its less function (stated through the verified comparator contract)", "GetNamespace()/GetName() return the ObjectMeta fields the comparator reads"},
 		},
 		"C18": {
